@@ -116,6 +116,12 @@ pub enum Op {
     DropRange { lo: BoundSpec, hi: BoundSpec },
     Clear,
     Scan(ScanSpec),
+    /// open a long-lived range iterator at the newest snapshot (or a live one) and keep it across ops
+    IterOpen { lo: BoundSpec, hi: BoundSpec, snap: u8 },
+    /// consume items from a held iterator: pops (true = next, false = next_back)
+    IterStep { slot: u8, pops: Vec<bool> },
+    /// drain the rest of a held iterator and release it
+    IterClose { slot: u8, front: bool },
     /// FIFO (C19 only)
     Fifo { limit_code: u8, ttl_code: u8 },
     /// advance virtual clock by n seconds (C19 only)
